@@ -353,6 +353,32 @@ def worker_accept(rec, shard, nshards, seed):
             if i2 or len(dd.defs) != 2 or dd2.issues:
                 rec.violation("C09:dup:distinct-names-confused", a=a, b=b)
         rec.outcome("dup:" + str(same))
+    # the same for names with letters whose lower-case form and case-folded form differ (sharp s, final sigma, ligatures)
+    for nm, nm2 in (("Stra\u00dfe", "Stra\u00dfe"), ("Ma\u00df", "MASS"), ("Ma\u00df", "Ma\u00df"), ("\ufb01x", "\ufb01x"), ("\ufb01x", "FIX"),
+                    ("\u03bf\u03b4\u03bf\u03c2", "\u03bf\u03b4\u03bf\u03c2"), ("\u03bf\u03b4\u03bf\u03c2", "\u039f\u0394\u039f\u03a3")):
+        for suffix, c1, c2 in (("", "(Red)", "(Blue)"), ("/#", "(Label/#)", "(Label/#, Red)")):
+            a, b = f"(Definition/{nm}{suffix}, {c1})", f"(Definition/{nm2}{suffix}, {c2})"
+            rec.n("evaluations")
+            rec.n("distinct_nontrivial")
+            try:
+                dd = DefinitionDict(None, env.schema)
+                i1 = dd.check_for_definitions(env.HedString(a, env.schema))
+                first = {k: str(v.contents) for k, v in dd.defs.items()}
+                i2 = dd.check_for_definitions(env.HedString(b, env.schema))
+                dd2 = DefinitionDict([a, b], env.schema)
+            except Exception as e:
+                rec.violation("C09:dup:raises:" + type(e).__name__, a=a, b=b, error=repr(e)[:200])
+                continue
+            if i1 or len(first) != 1:
+                rec.outcome("dup:name-not-accepted")      # the name itself is not legal here: nothing to compare
+                continue
+            now = {k: str(v.contents) for k, v in dd.defs.items()}
+            if now != first or len(dd2.defs) != 1:
+                rec.violation("C09:dup:duplicate-not-ignored:non-ascii-name", a=a, b=b, defs=now)
+            if not i2 or not dd2.issues:
+                rec.violation("C09:dup:duplicate-not-reported:non-ascii-name", a=a, b=b, via_check=bool(i2),
+                              via_constructor=bool(dd2.issues))
+            rec.outcome("dup:non-ascii")
 
 
 def why(nm, ct, extra, placement):
